@@ -75,7 +75,7 @@ CONTRACTS = [
     Contract(S_ + "__enter__", props=["C12"], ensures={"returns_itself": "result is self"}, modifies=[], at_calls=False),
     Contract(
         S_ + "__exit__",
-        props=["C12"],
+        props=["C12", "C13"],  # C13: what a run learned never outlives it, so a table the catalog does not know is unknown again
         lets={"prov": "self.metadata_provider"},
         ensures={
             "forgets_session_metadata": "prov._session_metadata == {}",
